@@ -115,3 +115,38 @@ func MultiWorld(audit bool) *Template {
 		}
 	})
 }
+
+// TrafficWorld is the std world plus interchain traffic and open governance objects, so that there are
+// third-party records (counters, index and transaction records, proposals) an unauthorised call could damage.
+func TrafficWorld(audit bool) *Template {
+	name := fmt.Sprintf("traffic-audit=%v", audit)
+	return GetTemplate(name, NodeOpts{Audit: audit}, func(w *World, data map[string]string) {
+		w.Fund("1000000000000000000", ChainAdmins["chainA"], ChainAdmins["chainB"], ChainAdmins["chainC"], Outsiders[0], Outsiders[1], KeyFor("node-1"))
+		for _, c := range []string{"chainA", "chainB", "chainC"} {
+			w.RegisterAppchain(ChainAdmins[c], c)
+		}
+		w.RegisterService(ChainAdmins["chainA"], "chainA", "s1", true, "")
+		w.RegisterService(ChainAdmins["chainA"], "chainA", "s2", true, "")
+		w.RegisterService(ChainAdmins["chainB"], "chainB", "s1", true, "")
+		w.RegisterService(ChainAdmins["chainB"], "chainB", "s2", true, FullID(w.BxhID, "chainA", "s2"))
+		w.RegisterService(ChainAdmins["chainC"], "chainC", "s1", true, "")
+		proof := []byte("1")
+		a1, b1, c1 := FullID(w.BxhID, "chainA", "s1"), FullID(w.BxhID, "chainB", "s1"), FullID(w.BxhID, "chainC", "s1")
+		req := func(from, to string, idx uint64, k *Key) pb.Transaction {
+			return w.IBTP(k, &pb.IBTP{From: from, To: to, Index: idx, TimeoutHeight: 0, Proof: ProofHash(proof)}, proof)
+		}
+		rcp := func(from, to string, idx uint64, k *Key) pb.Transaction {
+			return w.IBTP(k, &pb.IBTP{From: from, To: to, Index: idx, Type: pb.IBTP_RECEIPT_SUCCESS, Proof: ProofHash(proof)}, proof)
+		}
+		for i, r := range w.Block(req(a1, b1, 1, ChainAdmins["chainA"]), req(b1, a1, 1, ChainAdmins["chainB"]), req(a1, c1, 1, ChainAdmins["chainA"])) {
+			mustOK(r, fmt.Sprintf("traffic req %d", i))
+		}
+		for i, r := range w.Block(rcp(a1, b1, 1, ChainAdmins["chainB"]), req(a1, b1, 2, ChainAdmins["chainA"])) {
+			mustOK(r, fmt.Sprintf("traffic %d", i))
+		}
+		// an open proposal (service registration, not voted)
+		r := w.Block(w.RegisterServiceTx(ChainAdmins["chainC"], "chainC", "open1", true, ""))[0]
+		mustOK(r, "open proposal")
+		data["openProposal"] = ProposalID(r)
+	})
+}
